@@ -327,7 +327,7 @@ def fam_pending(tier, rng):
     out = []
     for kind in ("div", "ovf", "subscript", "argnest"):
         for mode in ("resumenext", "onerrornext", "resume"):
-            for depth in (1, 2):
+            for depth, static in ((1, False), (2, False), (1, True), (2, True)):
                 b = B()
                 q = var("Q", "I")
                 f, code = failing(b, kind)
@@ -338,14 +338,14 @@ def fam_pending(tier, rng):
                 if mode == "resume":
                     fb.append(b.let(q, var("GQ", "I")))          # the handler repairs the SHARED GQ%; the body re-reads it
                 fb += [tok(b, "f-in"), f, tok(b, "f-out"), b.let(var("FB", "I"), lit("I", 1))]
-                subs = [fun("FB", "I", [("X", "I")], fb)] + (call_subs(b) if kind in CALLKINDS else [])
+                subs = [fun("FB", "I", [("X", "I")], fb, static=static)] + (call_subs(b) if kind in CALLKINDS else [])
                 c1 = fcall("FB", "I", [lit("I", 0)], 0)
                 e = bin_("+", lit("I", 100), c1)
                 if depth == 2:
                     c0 = fcall("FO", "I", [lit("I", 0)], 0)
                     inner = b.let(var("FO", "I"), e)
                     c1["sid"] = inner["id"]
-                    subs.append(fun("FO", "I", [("X", "I")], [tok(b, "o-in"), inner]))
+                    subs.append(fun("FO", "I", [("X", "I")], [tok(b, "o-in"), inner], static=static))
                     st = tok(b, "res", bin_("*", lit("I", 2), c0))
                     c0["sid"] = st["id"]
                 else:
@@ -361,7 +361,7 @@ def fam_pending(tier, rng):
                         [b.label("H"), tok(b, "h", {"k": "err"}), b.let(var("GQ", "I"), lit("I", 1)), b.resume("bare")]
                     if kind in ("ovf",):
                         continue
-                out.append({"fam": "pending:%s/%s/%d" % (kind, mode, depth), "prog": prog(main, subs)})
+                out.append({"fam": "pending:%s/%s/%d%s" % (kind, mode, depth, "/static" if static else ""), "prog": prog(main, subs)})
     return out
 
 
